@@ -172,7 +172,9 @@ ref_quarter(int m)
 }
 
 /* day-number bases, from the calendars' definitions:
- * Lilian day 1 = 1582-10-15; 1601-01-01 is 6653 days later -> LDN = n + 6652
+ * Lilian: the project documents it like its own daisy count, "reference date
+ * 15 Oct 1582", i.e. days since that date (2012-01-01 -> 156767 is pinned by
+ * the suite); 1601-01-01 is 6653 days after it -> LDN = n + 6652
  * Matlab datenum 1 = 0000-01-01; datenum(1601,1,1) = 584755 -> MDN = n + 584754
  * JDN (at noon) of 1601-01-01 = 2305814; the code uses the midnight form
  * n + 2305812.5; Unix day 0 = 1970-01-01 = day 134775 */
